@@ -10,7 +10,7 @@ FQuick == { <<"1","1">>, <<"1000","1">>, <<"1","1000">>, <<"3","1">>, <<"1","3">
 FThorough == FQuick \cup { <<"2","1">>, <<"1","2">>, <<"1000000","1">>, <<"1","1000000">>, <<"1000000000","1">>, <<"1","1000000000">>, <<"25","9">>, <<"7","5">>,
             <<"65536","1">>, <<"1","65536">>, <<"4294967296","1">>, <<"1","4294967296">>, <<"3600","1">>, <<"1","3600">>, <<"1001","1000">>, <<"1000","1001">>,
             <<"18446744073709551557","3">>, <<"3","18446744073709551557">>, <<"2147483647","65538">>, <<"255","256">>, <<"257","256">>, <<"65535","65536">>,
-            <<"32768","32767">>, <<"2147483648","2147483647">>, <<"3","2147483648">>, <<"100","254">>, <<"254","100">> }
+            <<"32768","32767">>, <<"2147483648","2147483647">>, <<"3","2147483648">>, <<"50","127">>, <<"127","50">> }
 Grid == IF Tier = "quick" THEN FQuick ELSE FThorough
 Extra == IF "EXTRA" \in DOMAIN IOEnv /\ IOEnv.EXTRA # "" THEN
            LET e == ndJsonDeserialize(IOEnv.EXTRA) IN { <<e[i].n, e[i].d>> : i \in 1..Len(e) }
